@@ -887,7 +887,7 @@ def run(ctx: core.Check, cases=None):
         "oracle tolerance 1e-9 relative to max(input scale, |bound|) on values and 1e-12 on probability levels (an atom must overlap a step by more than that); 'unimodal' is represented by Khinchin mixtures of uniforms; "
         "laws meet mean and variance constraints exactly (two-point laws are parametrised by the lower atom, no square root)",
     ]
-    ctx.lean_stage(["Pun.Props.C10"])
+    ctx.lean_stage(["Pun.Lemmas.FreeLaw", "Pun.Props.C10"])
     if cases is None:
         cases = gen_cases(ctx)
     reqs = [wire(fn, A) for (_, fn, A, _) in cases]
